@@ -539,7 +539,7 @@ pub const OPS: &[&str] = &[
     "GlobalAveragePool", "Resize", "CastLike", "Scatter", "Ceil", "Floor", "Round", "IsInf", "IsNaN", "PRelu",
     "LeakyRelu", "ReverseSequence", "DequantizeLinear", "QuantizeLinear", "Einsum",
     "SequenceConstruct", "SequenceAt", "SequenceLength", "SequenceInsert", "SequenceErase", "ConcatFromSequence",
-    "SplitToSequence",
+    "SplitToSequence", "Dropout",
 ];
 
 fn gen_case(op: &str, r: &mut Rng) -> Case {
@@ -1625,6 +1625,15 @@ fn gen_case(op: &str, r: &mut Rng) -> Case {
             };
             c.input(tensor(r, &s, dt, -9, 9)).opt_input(split).int("axis", axis).int("keepdims", keep)
                 .tag(format!("split={t},keepdims={}", b2s(keep)))
+        }
+        "Dropout" => {
+            let s = dims(r, 0, 4, 4, true);
+            let dt = if r.chance(4, 5) { Dt::F32 } else { any_dt(r) };
+            let ratio = r.chance(1, 2).then(|| T::scalar(Dt::F32, 0));
+            let tm = if ratio.is_some() && r.chance(1, 3) { Some(T::scalar(Dt::I32, 0).ot(onnx::BOOL)) } else { None };
+            let nout = r.range(1, 2) as usize;
+            let t = format!("{},ratio={},training_mode={},outputs={nout}", dt.name(), ratio.is_some(), tm.is_some());
+            c.input(tensor(r, &s, dt, -9, 9)).opt_input(ratio).opt_input(tm).nout(nout).tag(t)
         }
         other => panic!("no generator for {other}"),
     };
